@@ -180,6 +180,8 @@ def _worker(job):
         if job.opts.get('monitor_alloc'):
             ex.monitor_alloc = True
             ex.escape_lines = _ESCAPES
+        if job.opts.get('glue'):
+            ses.use_glue()
         if job.opts.get('cost_mode'):
             ex.cost_mode = True
         if job.opts.get('fx_model'):
